@@ -129,7 +129,7 @@ Section RenderWalk.
       match fuel with O => Err EFuel | S f =>
       if i <? len then
         do (t, l) <- sc (ind + 2)%nat joff voff;
-        do rest <- arr_str_loop f ind (i + 1) len (joff + 4) (voff + l);
+        do rest <- arr_str_loop f ind (i + 1) len (joff + STS_JSTEP) (voff + l);      (* scalar_to_string: *jentry_offset += .. *)
         Ok ((if 0 <? i then sep_text else []) ++ ind_text (ind + 2) ++ t ++ rest)
       else Ok []
       end.
@@ -141,7 +141,7 @@ Section RenderWalk.
       | kw :: r =>
           do k <- escape_range_w V koff (koff + je_len kw);
           do (t, l) <- sc (ind + 2)%nat joff voff;
-          do rest <- obj_str_loop r ind (i + 1) (joff + 4) (koff + je_len kw) (voff + l);
+          do rest <- obj_str_loop r ind (i + 1) (joff + STS_JSTEP) (koff + je_len kw) (voff + l);
           Ok ((if 0 <? i then sep_text else []) ++ ind_text (ind + 2) ++ k ++ (if pretty then [58; 32] else [58]) ++ t ++ rest)
       end.
 
@@ -151,19 +151,20 @@ Section RenderWalk.
       | None => Err EOther
       | Some h =>
           if hdr_type h =? SCALAR_CONTAINER_TAG then
-            do (t, _) <- sc ind (4 + off) (8 + off); Ok t
+            (* all offsets of this function: generated from container_to_string (gen/Constants.v, CTS_...) *)
+            do (t, _) <- sc ind (CTS_SC_JOFF off) (CTS_SC_VOFF off); Ok t
           else if hdr_type h =? ARRAY_CONTAINER_TAG then
             let len := hdr_len h in
-            do body <- arr_str_loop (S (length V)) ind 0 len (4 + off) (4 + off + 4 * len);
+            do body <- arr_str_loop (S (length V)) ind 0 len (CTS_ARR_JOFF off) (CTS_ARR_VOFF off len);
             Ok ((if pretty then [91; 10] else [91]) ++ body ++ (if pretty then 10 :: indent ind else []) ++ [93])
           else if hdr_type h =? OBJECT_CONTAINER_TAG then
             let len := hdr_len h in
             (* first loop: `length` key entry words from 4 + off on (a failed read is the `?`) *)
-            match rd_words (S (length V)) V 0 len (4 + off) with
+            match rd_words (S (length V)) V 0 len (CTS_OBJ_JOFF off) with
             | None => Err EOther
             | Some kws =>
-                let koff := 4 + off + 8 * len in
-                do body <- obj_str_loop kws ind 0 (4 + off + 4 * len) koff (koff + sum_je_len kws);
+                let koff := CTS_OBJ_KOFF off len in
+                do body <- obj_str_loop kws ind 0 (CTS_OBJ_JOFF off + CTS_OBJ_JSTEP * len) koff (CTS_OBJ_VOFF (koff + sum_je_len kws));
                 Ok ((if pretty then [123; 10] else [123]) ++ body ++ (if pretty then 10 :: indent ind else []) ++ [125])
             end
           else Ok []
